@@ -24,6 +24,7 @@
 #include <sys/types.h>
 #include <sys/sendfile.h>
 #include <sys/uio.h>
+#include <time.h>
 #include <unistd.h>
 
 #define LOG_MAX 16384
@@ -262,4 +263,64 @@ ssize_t copy_file_range(int in_fd, off64_t *in_off, int fd, off64_t *out_off, si
     RESOLVE(copy_file_range);
     WRITE_BODY('c', real_copy_file_range(in_fd, in_off, fd, out_off, n, flags),
                real_copy_file_range(in_fd, in_off, fd, out_off, COPY_PART(n), flags), -1)
+}
+
+/* ---- simulated sleeping ---------------------------------------------------
+ * SQLite (sqlite3_sleep: backup retries, busy handlers) and C extensions sleep
+ * through usleep / nanosleep / sleep.  While a step runs under simulation these
+ * return at once, are counted, and every `sleep_hook_every` calls a hook
+ * registered by the harness is invoked: that is how a lock-holding peer gets a
+ * chance to act ("the other process finished") while the step is waiting inside
+ * C code, so that a step which waits for a lock makes progress in bounded
+ * simulated time instead of deadlocking the single-threaded simulation. */
+static int sleep_virtual = 0;
+static long sleep_calls = 0;
+static double sleep_seconds = 0.0;
+static long sleep_hook_every = 0;
+static void (*sleep_hook)(long) = 0;
+static int (*real_usleep)(useconds_t);
+static int (*real_nanosleep)(const struct timespec *, struct timespec *);
+static unsigned int (*real_sleep)(unsigned int);
+
+void vshim_sleep_virtual(int on, long every, void (*hook)(long))
+{
+    sleep_virtual = on;
+    sleep_hook_every = every;
+    sleep_hook = hook;
+    if (on) { sleep_calls = 0; sleep_seconds = 0.0; }
+}
+long vshim_sleep_calls(void) { return sleep_calls; }
+double vshim_sleep_seconds(void) { return sleep_seconds; }
+
+static void slept(double seconds)
+{
+    sleep_calls++;
+    sleep_seconds += seconds;
+    if (sleep_hook && sleep_hook_every > 0 && sleep_calls % sleep_hook_every == 0)
+        sleep_hook(sleep_calls);
+}
+
+int usleep(useconds_t usec)
+{
+    if (sleep_virtual) { slept(usec / 1e6); return 0; }
+    RESOLVE(usleep);
+    return real_usleep(usec);
+}
+
+int nanosleep(const struct timespec *req, struct timespec *rem)
+{
+    if (sleep_virtual) {
+        slept(req ? req->tv_sec + req->tv_nsec / 1e9 : 0.0);
+        if (rem) { rem->tv_sec = 0; rem->tv_nsec = 0; }
+        return 0;
+    }
+    RESOLVE(nanosleep);
+    return real_nanosleep(req, rem);
+}
+
+unsigned int sleep(unsigned int seconds)
+{
+    if (sleep_virtual) { slept((double)seconds); return 0; }
+    RESOLVE(sleep);
+    return real_sleep(seconds);
 }
